@@ -386,7 +386,8 @@ def execute(ps: PureSys, ops: Dict[str, Any], stats: Stats, fresh: bool = True) 
     return run
 
 
-def generate_and_run(ps: PureSys, rng: np.random.Generator, stats: Stats, tier: str) -> Tuple[Dict[str, Any], PureRun]:
+def generate_and_run(ps: PureSys, rng: np.random.Generator, stats: Stats, tier: str, force_eager_only: bool = False
+                     ) -> Tuple[Dict[str, Any], PureRun]:
     n_clients = int(rng.integers(2, 5))
     keys = [int(rng.integers(0, 2**31 - 1)) for _ in range(n_clients)]
     ops: Dict[str, Any] = {"keys": keys, "ops": []}
@@ -398,7 +399,8 @@ def generate_and_run(ps: PureSys, rng: np.random.Generator, stats: Stats, tier: 
     # EAGER_ONLY client: in some runs one client is served by plain Python calls only, from its reset to the end of its
     # episode, so its state never passes through a jax transformation (Python-int / weak-typed leaves stay what the
     # library made them) - "plain per-call Python execution" for a whole episode, compared step by step with the jitted reference
-    eager_only = int(rng.integers(0, n_clients)) if rng.random() < (0.12 if ps.adapter.name in EAGER_COST else 0.35) else -1
+    # (always in the first run of a task, so that every (env, configuration) gets at least one such client)
+    eager_only = int(rng.integers(0, n_clients)) if (rng.random() < (0.12 if ps.adapter.name in EAGER_COST else 0.35) or force_eager_only) else -1
     if eager_only >= 0:
         stats.inc(stats.faults, "EAGER_ONLY_CLIENT")
 
@@ -406,6 +408,20 @@ def generate_and_run(ps: PureSys, rng: np.random.Generator, stats: Stats, tier: 
         c = run.clients[ci]
         if c.need_reset:
             return None
+        if ci == eager_only:
+            # the eager-only client plays towards the end of its episode (completion-driving moves, a few wasted or
+            # illegal ones in between): the terminal step and the steps around it are where Python-typed leaves matter
+            r = rng.random()
+            s_np = util.to_np(c.state)
+            if r < 0.65:
+                ad = ps.adapter
+                m = ad.env_mask(c.ts.observation) if ad.mask_mode else None
+                a = ad.policy_complete(s_np, ps.env, rng, m if (m is None or m.any()) else None)
+                if a is not None:
+                    return a
+            if r < 0.8:
+                return ps.adapter.inspec_action(ps.env, rng)
+            return choose_action(ps, s_np, c.ts, rng, False, stats)  # type: ignore[arg-type]
         return choose_action(ps, util.to_np(c.state), c.ts, rng, bool(rng.random() < 0.1), stats)  # type: ignore[arg-type]
 
     def emit(op: List[Any]) -> None:
@@ -570,7 +586,7 @@ def run_task(prop: Any, task: Dict[str, Any]) -> Dict[str, Any]:
         f0 = sum(stats.faults.values())
         s0 = stats.steps
         try:
-            ops, run = generate_and_run(ps, rng, stats, task["tier"])
+            ops, run = generate_and_run(ps, rng, stats, task["tier"], force_eager_only=(i == 0))
         except Violation as v:
             ops = v.ops  # type: ignore[attr-defined]
             key = (v.monitor, v.cls)
@@ -608,7 +624,7 @@ def run_task(prop: Any, task: Dict[str, Any]) -> Dict[str, Any]:
         if i == 0:
             rng2 = util.sub_rng(task["seed"], "C02", task["env"], cfg["id"], task["shard"], 0)
             try:
-                ops2, _ = generate_and_run(ps, rng2, Stats(), task["tier"])
+                ops2, _ = generate_and_run(ps, rng2, Stats(), task["tier"], force_eager_only=True)
                 det_ok = util.canon(ops2) == util.canon(ops)
             except Violation:
                 det_ok = None  # the violation itself is reported by the main loop
